@@ -120,7 +120,7 @@ QuadraticSolver::solve_along_surface(real_type half_b,
     {
         // On and along surface: no intersections
         result[0] = -c / (2 * half_b);
-        if (result[0] < 0)
+        if (result[0] <= 0)
         {
             result[0] = no_intersection();
         }
